@@ -130,6 +130,34 @@ def gen_disc_cycle_case(rng, cid, dbdir=None):
     cb.end()
     return cb
 
+def gen_waiting_cancel_case(rng, cid, dbdir=None):
+    """C05 (seed C05_3): W requests the leaf X only DYNAMICALLY (after its first inputs arrived); X changes, W is demanded
+    again and the build is cancelled while W's task is still waiting - its dependency list has been cleared and only the
+    first inputs re-recorded; the next build of the same engine must run W again instead of scanning that partial list."""
+    prog = gen_program(rng, cyclic=False, allow=("follow", "dyn", "force", "out"))
+    W, M = rng.sample(DERIVED, 2); A, B, X = rng.sample(LEAVES, 3)
+    for k in DERIVED:
+        prog[k] = dict(prog[k]); prog[k]["valid"] = True; prog[k]["out"] = False; prog[k]["force"] = False
+        prog[k]["start"] = [r for r in prog[k]["start"] if r["k"] in LEAVES and r["k"] != X] or [dict(k=A, kind="in")]
+        prog[k]["dynOn"] = "none"; prog[k]["dynThen"] = []; prog[k]["dynElse"] = []; prog[k]["disc"] = []
+        prog[k]["proj"] = [r["k"] for r in prog[k]["start"] if r["kind"] == "in"]
+    # M: an intermediate rule W waits for (so that a cancel can land while W is waiting)
+    prog[M]["start"] = [dict(k=B, kind="in")]; prog[M]["proj"] = [B]
+    prog[W]["start"] = [dict(k=A, kind="in"), dict(k=M, kind="in")]; prog[W]["dynOn"] = A
+    prog[W]["dynThen"] = [dict(k=X, kind="in")]; prog[W]["dynElse"] = [dict(k=X, kind="in")]; prog[W]["proj"] = [A, M, X]
+    ext = {l: rng.randrange(2) for l in LEAVES}; ext.update({k: 0 for k in DERIVED})
+    cb = CaseBuilder(cid, prog, ext)
+    usedb = dbdir is not None and rng.random() < 0.4
+    cb.engine(db=("%s/%s.db" % (dbdir, cid)) if usedb else None)
+    cb.build(W, mode=rng.choice(["sync", "det"]), seed=rng.randrange(1 << 30), defer=100)
+    cb.mutate(X, 1 - cb.ext[X])
+    if rng.random() < 0.5: cb.mutate(B, 1 - cb.ext[B])          # (M runs as well: more points at which W is waiting)
+    cb.build(W, mode=rng.choice(["sync", "det", "det"]), seed=rng.randrange(1 << 30), defer=rng.choice([100, 60]), cancel=rng.randint(2, 26), verify=1)
+    cb.reset()
+    cb.build(W, mode="sync", seed=rng.randrange(1 << 30), verify=1)
+    cb.end()
+    return cb
+
 def gen_stranded_case(rng, cid, dbdir=None):
     """C05 (S37): R reads the leaf L through a DISCOVERED dependency; L has a record from an earlier build, changes, R is built
     and the build is cancelled at one of its first points - in some of them after R completed and before L was brought up
